@@ -51,6 +51,11 @@ fn main() {
                 Some(Err(_)) => "Err".to_owned(),
                 Some(Ok(t)) => format!("Ok({})", t.qualified_cxx_name()),
             },
+            "resolve_type" => match a.resolve_type("MemberEnum") {
+                None => "None".to_owned(),
+                Some(Err(_)) => "Err".to_owned(),
+                Some(Ok(t)) => format!("Ok({})", t.qualified_cxx_name()),
+            },
             "get_enum_by_variant" => match a.get_enum_by_variant("MemberVariant") {
                 None => "None".to_owned(),
                 Some(Err(_)) => "Err".to_owned(),
